@@ -97,7 +97,9 @@ def resolve(task):
             if 'ok' in r: r['ok'] = fix(r['ok'])
             out[key] = r
         if ep in c19_stubs.EP_MAIN and not task.get('no_parser'):
-            r = c19_stubs.capture(ep, task.get('argv', []), task.get('pre', []))
+            # the token '<cwd>' in argv stands for the working directory of this task (`--workdirectory $PWD`)
+            argv = [os.getcwd() if a == '<cwd>' else a for a in task.get('argv', [])]
+            r = c19_stubs.capture(ep, argv, task.get('pre', []))
             if 'ns' in r: r['ns'] = fix(r['ns'])
             out['parser'] = r
         return out
